@@ -869,6 +869,8 @@ class FnTr:
         if k == "tuple":
             vs = [self.expr(x) for x in e[1]]
             return Val("(" + ", ".join(v.lean for v in vs) + ")", ("tuple", [v.ty for v in vs]))
+        if k == "unsafe":
+            raise Unsupported("unsafe block")
         if k == "macro":
             raise Unsupported(f"macro {e[1]}! in expression position")
         raise Unsupported(f"expression {k}")
@@ -1085,6 +1087,8 @@ class FnTr:
             return Val(f"{'U32' if v.ty == 'u32' else 'U64'}.toLE {v.atom()}", ("arr", "u8", INT[v.ty] // 8))
         if name in ("as_mut", "as_ref", "clone", "iter") and not args:
             return v
+        if name in ("to_le", "from_le") and not args and v.ty in INT:
+            return v          # little-endian host (DESIGN §10): the identity
         if name == "len" and not args:
             if v.elems is not None:
                 return Val(str(len(v.elems)), "nat", lit=len(v.elems))
@@ -1598,6 +1602,8 @@ class FnTr:
         if isinstance(x, tuple):
             if len(x) == 2 and x[0] == "deref" and x[1][0] == "path" and len(x[1][1]) == 1 and x[1][1][0] in m:
                 return m[x[1][1][0]]
+            if len(x) == 3 and x[0] == "field" and x[1][0] == "path" and len(x[1][1]) == 1 and x[1][1][0] in m:
+                return ("field", m[x[1][1][0]], x[2])          # `x.0` through the reference
             if len(x) == 2 and x[0] == "path" and len(x[1]) == 1 and x[1][0] in m:
                 raise Unsupported(f"use of the iteration reference `{x[1][0]}` other than through `*{x[1][0]}`")
             return tuple(self.subst_deref(y, m) for y in x)
@@ -1667,6 +1673,16 @@ class FnTr:
             it0 = it0[2] if it0[0] == "ref" else it0[1]
         if var[0] != "name":
             return self.zip_for(var, it0, body)
+        if it0[0] == "mcall" and it0[2] == "iter_mut" and not it0[3] and var[1] != "_":
+            # `for x in a.iter_mut() { … *x … }`: element-wise over the whole array
+            base, off, ln = self.slice_of(it0[1])
+            kind, pl, _ = self.resolve_base(base)
+            if ln is None or (kind == "var" and pl.elems is not None) or (kind == "field" and isinstance(pl[2], list)) or body[1] is not None:
+                raise Unsupported("iter_mut over this value")
+            j = self.fresh("j") + "'"
+            at = ("index", base, ("path", [j]) if off == 0 else ("bin", "+", ("lit", off, "usize"), ("path", [j])))
+            return self.for_stmt(("for", ("name", j), ("range", ("lit", 0, "usize"), ("lit", ln, "usize"), False),
+                                  (self.subst_deref(body[0], {var[1]: at}), None)))
         if it0[0] == "mcall" and it0[2] == "iter":
             it0 = it0[1]
         mapf = None
@@ -1762,8 +1778,49 @@ class FnTr:
             if s[0] == "return":
                 self.stmts(stmts[:i])
                 return self.final(s[1], ret_ty, selfkind)
+            if s[0] == "expr" and s[1][0] == "unsafe":
+                self.stmts(stmts[:i])
+                arr, nbytes, rdfn = self.unsafe_fill(s[1][1])
+                bs, er = self.fresh("bytes"), self.fresh("err")
+                def g():
+                    self.emit(f"let {arr.lean} := ({rdfn} {bs} {arr.ty[2]}).toArray;")
+                    return self.body_to_lean(stmts[i + 1:], tail, ret_ty, selfkind)
+                l2, r2 = self.sub(g)
+                rng = self.rng.lean
+                return (f"match fill {rng} {nbytes} with\n  | (.ok {bs}, {rng}) => {self.render(l2, r2)}"
+                        f"\n  | (.error {er}, {rng}) => (.error {er}, {rng})")
         self.stmts(stmts)
         return self.final(tail, ret_ty, selfkind)
+
+    def unsafe_fill(self, toks):
+        """The one `unsafe` idiom that is mapped — a PRIMITIVE of the trusted base (DESIGN §3b, Extension):
+              let ptr = ARR.as_mut_ptr() as *mut u8;
+              let slice = slice::from_raw_parts_mut(ptr, N * size_of(elem));
+              RNG.fill_bytes(slice);              or   RNG.try_fill_bytes(slice)?;
+        where ARR is a local array of N words that covers exactly these bytes and RNG is the source parameter: the source is
+        asked for N * size bytes, and (little-endian host) ARR becomes the little-endian words of these bytes; a failing source
+        ends the function with its error."""
+        text = " ".join(t[1] for t in toks)
+        m = re.match(r"^let ptr = (\w+) \. as_mut_ptr \( \) as \* mut u8 ; let slice = (?:core :: )?slice :: from_raw_parts_mut \( ptr , "
+                     r"(.+?) \) ; (\w+) \. (?:fill_bytes \( slice \)|(try_fill_bytes) \( slice \) \?) ;$", text)
+        if m is None or self.rng is None or m.group(3) != self.rng.name:
+            raise Unsupported("unsafe block")
+        if bool(m.group(4)) != self.rng_fallible:
+            raise Unsupported("unsafe block (fill / try_fill does not match the function's result type)")
+        arr = self.lookup(m.group(1))
+        ty = arr.ty if arr is not None and arr.ty is not None else (self.inferred.get(arr.key) if arr is not None else None)
+        if arr is None or arr.elems is not None or arr.view is not None or not is_arr(ty) or unwrap_ty(ty[1]) not in ("u32", "u64"):
+            raise Unsupported("unsafe block (the array is not a local word array)")
+        w = INT[ty[1]]
+        try:
+            ne = rsfront.Parser(rsfront.lex(m.group(2).replace(" ", "")), {}).parse_expr_all()
+        except Exception:
+            raise Unsupported("unsafe block (length expression)")
+        nbytes = const_eval(ne, self.local_consts())
+        if nbytes != ty[2] * (w // 8):
+            raise Unsupported("unsafe block (the byte length is not the size of the array)")
+        arr.ty = ty
+        return arr, nbytes, "readU32s" if w == 32 else "readU64s"
 
     def final(self, tail, ret_ty, selfkind):
         """the function's result: (return value?, `&mut` parameters in order…, st if `&mut self`)"""
@@ -1774,6 +1831,13 @@ class FnTr:
         else:
             if tail is None:
                 raise Unsupported("function with a return type but no tail expression")
+            if self.rng is not None and self.rng_fallible:
+                t0 = tail
+                while t0[0] == "paren":
+                    t0 = t0[1]
+                if not (t0[0] == "call" and t0[1] == ("path", ["Ok"]) and len(t0[2]) == 1):
+                    raise Unsupported("result of a fallible constructor that is not Ok(…)")
+                tail, ret_ty = t0[2][0], ("named", "Self")
             v = self.expr(tail, ret_ty if ret_ty != ("named", "Self") else None)
             if v.elems is not None:
                 if not is_arr(ret_ty) or len(v.elems) != ret_ty[2]:
@@ -1792,6 +1856,10 @@ class FnTr:
             comps.append(ov.lean)
         if selfkind == "mut":
             comps.append("st")
+        if self.rng is not None:
+            if len(comps) != 1:
+                raise Unsupported("function with a source parameter and other results")
+            return f"(.ok {Val(comps[0], None).atom()}, {self.rng.lean})"
         if not comps:
             return "()"
         return comps[0] if len(comps) == 1 else "(" + ", ".join(comps) + ")"
@@ -1811,8 +1879,19 @@ class FnTr:
             params.append(f"(st : {self.u.sinfo.lean})")
             self.scope.declare("self", Var("self", ("named", "Self"), "st"))
         rparts = []
+        self.rng, self.rng_fallible = None, False
+        gen = " ".join(t[1] for t in (fn.generics or []))
         for n, ty in sig["params"]:
             mr = n in sig["mutref"]
+            if isinstance(ty, tuple) and ty[0] == "named" and mr and (
+                    ty[1] in ("implRngCore", "implTryRngCore") or re.search(r"\b" + re.escape(ty[1]) + r" : (Try)?RngCore\b", gen)):
+                # a source of bytes: `(fill : TryFill ρ) (rng : ρ)`; the function returns `Except SrcErr result × ρ`
+                if self.rng is not None or sig["selfkind"]:
+                    raise Unsupported("more than one source parameter / source parameter of a method")
+                self.rng = Var(n, ("named", "@rng"), lname(n))
+                self.scope.declare(n, self.rng)
+                params.append(f"{{ρ : Type}} (fill : TryFill ρ) ({lname(n)} : ρ)")
+                continue
             if isinstance(ty, tuple) and ty[0] == "arr" and ty[1] == "u8":
                 if mr:
                     raise Unsupported("`&mut` byte-string parameter")
@@ -1839,7 +1918,15 @@ class FnTr:
                     self.outs.append(n)
                     rparts.append(lean_ty(ty))
         ret = sig["ret"]
+        if self.rng is not None:
+            if isinstance(ret, tuple) and ret[0] == "named" and re.match(r"^Result<Self,\w+::Error>$", ret[1]):
+                self.rng_fallible, ret = True, ("named", "Result")
+            elif ret not in (("named", "Self"), ("named", self.u.name)):
+                raise Unsupported("function with a source parameter that does not construct Self")
         body = self.body_to_lean(stmts, tail, ret, sig["selfkind"])
+        if self.rng is not None:
+            text = "\n  ".join(self.lines + [body])
+            return params, f"Except SrcErr ({self.u.sinfo.lean}) × ρ", text
         if ret is not None:
             rparts.insert(0, self.u.sinfo.lean if ret in (("named", "Self"), ("named", self.u.name)) else lean_ty(ret))
         if sig["selfkind"] == "mut":
